@@ -31,6 +31,10 @@ class Node:
         Type that the node evaluates to.
     """
 
+    # Make NumPy arrays defer to the reflected operators of SPA nodes instead of
+    # broadcasting over them, so that bare arrays are rejected on either side.
+    __array_ufunc__ = None
+
     def __init__(self, type_):
         self.type = type_
 
